@@ -1015,7 +1015,7 @@ val glencoe_ctc : node -> aval result
 
 val glencoe_write : fm -> aval result
 
-val jbool : aval -> bool result
+val jtruthy : aval -> bool
 
 val finfo_get : aval -> aval -> char list -> aval result
 
